@@ -51,26 +51,28 @@ def run(ck, ix, tier):
             p = undominated(cfg, [g], cn)
             # the conversion (inside try) precedes the gate on every path where error is a Quantity; structural: it lies before the gate in source
             ck.check(conv[0].lineno < cfg.nodes[g].lineno, "G-DOM", "Measurement.__new__|conversion-before-gate", f.loc(conv[0]), "error converted before it is tested and used", "the error is tested/used before it was converted to the value's units")
-    # the object is built from (<mag>, <units>): <mag> is either the value itself (no error given) or ufloat(value, error)
+    # the object is built by super().__new__(cls, <mag>, units): <mag> is the value itself exactly when no error was given
+    # (an uncertain magnitude is kept: same random variable) and ufloat(value, error) otherwise - one call or two
+    from .. import shape
     sup = [c for c in walk_local(f.node) if isinstance(c, ast.Call) and isinstance(c.func, ast.Attribute) and c.func.attr == "__new__" and isinstance(c.func.value, ast.Call) and call_name(c.func.value) == "super"]
-    ck.check(len(sup) == 1 and len(sup[0].args) == 3 and norm(sup[0].args[0]) == "cls", "G-TAG", "Measurement.__new__|built-by-PlainQuantity.__new__", f.loc(), "super().__new__(cls, mag, units)", "the Measurement is no longer built by super().__new__(cls, magnitude, units)")
-    if len(sup) == 1 and len(sup[0].args) == 3:
-        magx, unitx = sup[0].args[1], sup[0].args[2]
-        ck.check(norm(unitx) == "units", "G-TAG", "Measurement.__new__|built-with-given-units", f.loc(sup[0]), "the units passed in / unpacked from the value", f"the Measurement is built with units `{norm(unitx)}`")
-        vals = []
-        if isinstance(magx, ast.Name):
-            vals = [(norm(v), st) for (v, kind, st) in defs.defs.get(magx.id, []) if v is not None]
+    ck.check(len(sup) >= 1 and all(len(c.args) == 3 and norm(c.args[0]) == "cls" for c in sup), "G-TAG", "Measurement.__new__|built-by-PlainQuantity.__new__", f.loc(), "super().__new__(cls, mag, units)", "the Measurement is no longer built by super().__new__(cls, magnitude, units)")
+    missing = lambda a_: isinstance(a_, ast.Compare) and isinstance(a_.ops[0], ast.Is) and sorted([norm(a_.left), norm(a_.comparators[0])]) == ["MISSING", "error"]
+    vals = []
+    for c in [c for c in sup if len(c.args) == 3]:
+        magx, unitx = c.args[1], c.args[2]
+        ck.check(norm(unitx) == "units", "G-TAG", "Measurement.__new__|built-with-given-units", f.loc(c), "the units passed in / unpacked from the value", f"the Measurement is built with units `{norm(unitx)}`")
+        if isinstance(magx, ast.Name) and magx.id not in defs.params and defs.defs.get(magx.id):
+            vals += [(norm(v), st) for (v, kind, st) in defs.defs[magx.id] if v is not None]
         else:
-            vals = [(norm(magx), sup[0])]
-        texts = sorted(v for v, _ in vals)
-        ck.check(texts == ["ufloat(value, error)", "value"], "G-PROV", "Measurement.__new__|magnitude-is-value-or-ufloat(value,error)", f.loc(sup[0]), "magnitude = value (already uncertain) | ufloat(value, error)",
-                 f"the magnitude of the new Measurement is one of {texts}: an uncertain magnitude passed without error must be kept as is (same random variable, so correlations survive: x - x == 0 +/- 0) and otherwise ufloat(value, error) is built")
-        for v, st in vals:
-            if v == "value":
-                par = getattr(st, "_parent", None)
-                ok = isinstance(par, ast.If) and norm(par.test) in ("error is MISSING", "MISSING is error") and st in par.body
-                ok = ok or (isinstance(par, ast.If) and norm(par.test) in ("error is not MISSING",) and st in par.orelse)
-                ck.check(ok, "G-DOM", "Measurement.__new__|value-kept-only-when-no-error-given", f.loc(st), "value kept as magnitude exactly when no error was given", "the value is used as magnitude although an error was given (the error would be dropped)")
+            vals.append((norm(magx), c))
+    texts = sorted({v for v, _ in vals})
+    ck.check(texts == ["ufloat(value, error)", "value"], "G-PROV", "Measurement.__new__|magnitude-is-value-or-ufloat(value,error)", f.loc(sup[0]) if sup else f.loc(), "magnitude = value (already uncertain) | ufloat(value, error)",
+             f"the magnitude of the new Measurement is one of {texts}: an uncertain magnitude passed without error must be kept as is (same random variable, so correlations survive: x - x == 0 +/- 0) and otherwise ufloat(value, error) is built")
+    for v, st in vals:
+        want = (v == "value")
+        if v in ("value", "ufloat(value, error)"):
+            ck.check(shape.holds_at(st, f.node, missing, want), "G-DOM", "Measurement.__new__|value-kept-only-when-no-error-given", f.loc(st), "value kept as magnitude exactly when no error was given",
+                     "the value is used as magnitude although an error was given (the error would be dropped), or an uncertainty is built although none was given")
     unp = [a for a in walk_local(f.node) if isinstance(a, ast.Assign) and isinstance(a.targets[0], ast.Tuple) and [norm(e) for e in a.targets[0].elts] == ["value", "units"]]
     ok = len(unp) == 1 and isinstance(unp[0].value, ast.Tuple) and [norm(e) for e in unp[0].value.elts] == ["value.magnitude", "value.units"]
     ck.check(ok, "G-TAG", "Measurement.__new__|quantity-value-unpacked", f.loc(), "a Quantity value is unpacked into magnitude and units", "a Quantity value is no longer unpacked into (magnitude, units)")
@@ -78,20 +80,26 @@ def run(ck, ix, tier):
     # ------------------------------------------------------------ plus_minus
     f = ix.func(MO, "MeasurementQuantity.plus_minus")
     ck.analysed(f)
-    src = norm(f.node)
-    ck.check("error = error.to(self._units).magnitude" in src, "G-TAG", "plus_minus|quantity-error-converted-to-own-units", f.loc(), "a Quantity error is converted to the quantity's units", "plus_minus no longer converts a Quantity error to the quantity's own units")
-    rel = [a for a in walk_local(f.node) if isinstance(a, ast.Assign) and norm(a.targets[0]) == "error" and "abs(" in norm(a.value)]
-    ok = len(rel) == 1 and norm(rel[0].value) in ("error * abs(self.magnitude)", "abs(self.magnitude) * error")
-    ck.check(ok, "G-PROV", "plus_minus|relative-error-scaled-by-abs-magnitude", f.loc(rel[0]) if rel else f.loc(), "relative error x |magnitude| (the sign of the error is preserved for the negative-error gate)",
-             f"`{norm(rel[0].value) if rel else '?'}`: the relative error must be multiplied by abs(magnitude) only; taking abs() of the product hides a negative relative error from the negative-error check")
-    cfg = cfg_of(f)
-    t = [n.id for n in cfg.nodes if n.kind == "test" and norm(n.ast) == "relative"]
-    first = [x for x in t if isinstance(getattr(cfg.nodes[x].stmt, "_parent", None), ast.If) and "isinstance(error" in norm(cfg.nodes[x].stmt._parent.test) and cfg.nodes[x].stmt in cfg.nodes[x].stmt._parent.body]
-    ck.check(bool(first) and all(edge_leads_only_to_raise(cfg, x, "t") is None for x in first), "G-DOM", "plus_minus|quantity-as-relative-error-raises", f.loc(), "a Quantity cannot be a relative error", "a Quantity passed as relative error no longer raises")
+    dfp = defs_of(f)
+    is_q = lambda a_: isinstance(a_, ast.Call) and call_name(a_) == "isinstance" and a_.args and norm(a_.args[0]) == "error"
+    is_rel = lambda a_: isinstance(a_, ast.Name) and a_.id == "relative"
+    convs = [x for x in walk_local(f.node) if isinstance(x, ast.Attribute) and x.attr == "magnitude" and norm(x.value) == "error.to(self._units)"]
+    ck.check(len(convs) == 1 and shape.holds_at(convs[0], f.node, is_q, True) and isinstance(getattr(convs[0], "_parent", None), ast.Assign), "G-TAG", "plus_minus|quantity-error-converted-to-own-units", f.loc(), "a Quantity error is converted to the quantity's units", "plus_minus no longer converts a Quantity error to the quantity's own units")
+    prods = [b_ for b_ in walk_local(f.node) if isinstance(b_, ast.BinOp) and isinstance(b_.op, ast.Mult) and "error" in (norm(b_.left), norm(b_.right))]
+    okp = len(prods) == 1 and sorted([norm(prods[0].left), norm(prods[0].right)]) == ["abs(self.magnitude)", "error"] and isinstance(getattr(prods[0], "_parent", None), ast.Assign) \
+        and shape.holds_at(prods[0], f.node, is_rel, True) and shape.holds_at(prods[0], f.node, is_q, False)
+    ck.check(okp, "G-PROV", "plus_minus|relative-error-scaled-by-abs-magnitude", f.loc(prods[0]) if prods else f.loc(), "relative error x |magnitude| (the sign of the error is preserved for the negative-error gate)",
+             f"`{norm(getattr(prods[0], '_parent', prods[0])) if prods else '?'}`: a relative (non-Quantity) error must be multiplied by abs(magnitude) only; taking abs() of the product hides a negative relative error from the negative-error check")
+    raises = [r for r in walk_local(f.node) if isinstance(r, ast.Raise)]
+    ck.check(len(raises) >= 1 and all(shape.holds_at(r, f.node, is_q, True) and shape.holds_at(r, f.node, is_rel, True) for r in raises), "G-DOM", "plus_minus|quantity-as-relative-error-raises", f.loc(), "a Quantity cannot be a relative error", "a Quantity passed as relative error no longer raises (exactly in that case)")
     mc = [c for c in walk_local(f.node) if isinstance(c, ast.Call) and call_name(c) == "Measurement"]
-    ok = len(mc) == 1 and len(mc[0].args) == 3 and norm(mc[0].args[1]) == "error" and norm(mc[0].args[2]) in ("self._units", "self.units") \
-        and defs_of(f).roots(mc[0].args[0]) & {"self.magnitude", "self._magnitude", "self.m"} and not any(isinstance(x, ast.BinOp) for x in ast.walk(mc[0].args[0]))
-    ck.check(bool(ok), "G-TAG", "plus_minus|measurement-in-own-units", f.loc(mc[0]) if mc else f.loc(), "Measurement(own magnitude, error, own units)", f"plus_minus builds `{norm(mc[0]) if mc else '?'}` instead of Measurement(own magnitude, error, own units)")
+    ok = len(mc) == 1 and len(mc[0].args) == 3 and norm(mc[0].args[2]) in ("self._units", "self.units") \
+        and dfp.roots(mc[0].args[0]) & {"self.magnitude", "self._magnitude", "self.m"} and not any(isinstance(x, ast.BinOp) for x in ast.walk(mc[0].args[0]))
+    if ok:
+        e_ = mc[0].args[1]
+        evals = {norm(v) for (v, k, st) in dfp.defs.get(e_.id, []) if v is not None} if isinstance(e_, ast.Name) else {norm(e_)}
+        ok = isinstance(e_, ast.Name) and evals <= {"error", "error.to(self._units).magnitude", "error * abs(self.magnitude)", "abs(self.magnitude) * error"}
+    ck.check(bool(ok), "G-TAG", "plus_minus|measurement-in-own-units", f.loc(mc[0]) if mc else f.loc(), "Measurement(own magnitude, error, own units)", f"plus_minus builds `{norm(mc[0]) if mc else '?'}` instead of Measurement(own magnitude, (converted/scaled) error, own units)")
     ci = ix.cls(MO, "Measurement")
     for prop, frag in (("value", "self._REGISTRY.Quantity(self.magnitude.nominal_value, self.units)"), ("error", "self._REGISTRY.Quantity(self.magnitude.std_dev, self.units)"), ("rel", "abs(self.magnitude.std_dev / self.magnitude.nominal_value)")):
         m = ci.methods.get(prop)
